@@ -9,8 +9,10 @@ touches model state; name / set / boolean computations are pure functions.  Pure
 `variant` (transform: `identity | label | error`), `errnames`.
 
 Domain of the correspondence (`c14.deriv`): services without env files / label files that exist (reading files is
-C16's model); everything else is as in the code, including the intermediate deep copies of
-`WithServicesEnabled` and `WithSelectedServices`.
+C16's model; the loops over them are `opaque` statements); everything else is as in the code, with Go's variable names.
+A call of another modelled function is a `block` tagged with the source text of the calling statement and expanded in
+place.  `render` prints the statement skeleton of a program; `translator/c14prog.go` prints the same skeleton from the Go
+source (`Gen/C14Progs.lean`) and `Props/C14Deriv.lean` obliges the two to be equal.
 -/
 namespace CV.Heap.Deriv
 open CV.Heap
@@ -109,135 +111,167 @@ def lookupPair (k : String) : List String → Option String
 
 /-! ## statement blocks -/
 
-/-- `np.WithProfiles(profiles)` after `np` has been bound to the copy -/
+/-- `self.AllServices()` → `all` -/
+def allServices (self : String) : List Stmt := [
+  .allocMap "all",
+  .rangeMap "name" "service" (.fld (.var self) fServices) [.mapStore (.var "all") (·.pstr "name") (.var "service")],
+  .rangeMap "name" "service" (.fld (.var self) fDisabled) [.mapStore (.var "all") (·.pstr "name") (.var "service")]]
+
+/-- the body of `WithProfiles` after `newProject := p.deepCopy()`; `np` = the copy -/
 def withProfilesBody (np : String) : List Stmt := [
   .allocMap "enabled",
   .allocMap "disabled",
-  -- all := np.AllServices()
-  .allocMap "all",
-  .assign "m" (.fld (.var np) fServices),
-  .rangeMap "k" "s" (.var "m") [.mapStore (.var "all") (·.pstr "k") (.var "s")],
-  .assign "m" (.fld (.var np) fDisabled),
-  .rangeMap "k" "s" (.var "m") [.mapStore (.var "all") (·.pstr "k") (.var "s")],
-  .rangeMap "k" "s" (.var "all") [
-    .ite (fun st => hasProfile (v st "s") (st.plist "profiles"))
-      [.mapStore (.var "enabled") (·.pstr "k") (.var "s")]
-      [.mapStore (.var "disabled") (·.pstr "k") (.var "s")]],
+  .block (np ++ ".AllServices()") (allServices np),
+  .rangeMap "name" "service" (.var "all") [
+    .ite (fun st => hasProfile (v st "service") (st.plist "profiles"))
+      [.mapStore (.var "enabled") (·.pstr "name") (.var "service")]
+      [.mapStore (.var "disabled") (·.pstr "name") (.var "service")]],
   .setPtrFld (.var np) fServices (.var "enabled"),
   .setPtrFld (.var np) fDisabled (.var "disabled"),
   -- newProject.Profiles = slices.Clone(profiles)
-  .allocSlice "prof" (fun st => (getP "profiles" st.pvars).map (·.map encStr)),
-  .setPtrFld (.var np) fProfiles (.var "prof")]
+  .allocSlice "tmpProfiles" (fun st => (getP "profiles" st.pvars).map (·.map encStr)),
+  .setPtrFld (.var np) fProfiles (.var "tmpProfiles")]
 
-def withProfiles : List Stmt := .deepCopy "np" (.var "p") :: withProfilesBody "np"
+def withProfiles : List Stmt :=
+  .deepCopy "newProject" (.var "p") :: withProfilesBody "newProject" ++ [.assign "result" (.var "newProject")]
 
-/-- `WithServicesEnvironmentResolved(discard)` on the copy `np` (services whose env files do not exist and are optional) -/
+/-- `m.Resolve(np.Environment.Resolve)` in place on the map held by `service.Environment` -/
+def resolveEnv (np : String) : List Stmt := [
+  .assign "m" (.fld (.var "service") fEnvironment),
+  .rangeMap "k" "val" (.var "m") [
+    .ite (fun st => isNil (v st "val") && hasIdx (st.pstr "k") (getFld (fid "Environment") (v st np)))
+      [.allocPtr "value" (.idx (.fld (.var np) (fid "Environment")) (·.pstr "k")),
+       .mapStore (.var "m") (·.pstr "k") (.var "value")] []]]
+
+/-- `environment.OverrideBy(service.Environment)`; the method returns its receiver -/
+def overrideEnv : List Stmt := [
+  .assign "other" (.fld (.var "service") fEnvironment),
+  .rangeMap "k" "val" (.var "other") [.mapStore (.var "environment") (·.pstr "k") (.var "val")],
+  .assign "service" (.withFld (.var "service") fEnvironment (.var "environment"))]
+
+/-- the body of `WithServicesEnvironmentResolved` after the copy -/
 def envResolvedBody (np : String) : List Stmt := [
-  .assign "svcs" (.fld (.var np) fServices),
-  .rangeMap "i" "service" (.var "svcs") [
-    -- service.Environment = service.Environment.Resolve(newProject.Environment.Resolve): in place
-    .assign "env" (.fld (.var "service") fEnvironment),
-    .rangeMap "k" "val" (.var "env") [
-      .ite (fun st => isNil (v st "val") && hasIdx (st.pstr "k") (getFld (fid "Environment") (v st np)))
-        [.allocPtr "ptr" (.idx (.fld (.var np) (fid "Environment")) (·.pstr "k")),
-         .mapStore (.var "env") (·.pstr "k") (.var "ptr")]
-        []],
+  .rangeMap "i" "service" (.fld (.var np) fServices) [
+    .block "service.Environment = service.Environment.Resolve(newProject.Environment.Resolve)" (resolveEnv np),
     .allocMap "environment",
-    -- environment.OverrideBy(service.Environment)
-    .assign "env" (.fld (.var "service") fEnvironment),
-    .rangeMap "k" "val" (.var "env") [.mapStore (.var "environment") (·.pstr "k") (.var "val")],
-    .assign "service" (.withFld (.var "service") fEnvironment (.var "environment")),
+    .opaque "service.EnvFiles",
+    .block "service.Environment = environment.OverrideBy(service.Environment)" overrideEnv,
     .ite (fun st => st.plist "discard" == ["1"])
       [.assign "service" (.withFld (.var "service") fEnvFiles .nilv)] [],
     .mapStore (.fld (.var np) fServices) (·.pstr "i") (.var "service")]]
 
-def envResolved : List Stmt := .deepCopy "np" (.var "p") :: envResolvedBody "np"
+def envResolved : List Stmt :=
+  .deepCopy "newProject" (.var "p") :: envResolvedBody "newProject" ++ [.assign "result" (.var "newProject")]
 
-/-- `WithServicesLabelsResolved(discard)` on the copy (services without label files) -/
+/-- `labels = labels.OverrideBy(service.Labels.ToMappingWithEquals())`: a fresh pointer per label -/
+def overrideLabels : List Stmt := [
+  .assign "l" (.fld (.var "service") fLabels),
+  .rangeMap "k" "val" (.var "l") [
+    .allocPtr "ptr" (.var "val"),
+    .mapStore (.var "labels") (·.pstr "k") (.var "ptr")]]
+
+/-- `service.Labels = NewLabelsFromMappingWithEquals(labels)` (every value of `labels` is non-nil here) -/
+def newLabels : List Stmt := [
+  .allocMap "fresh",
+  .assign "l" (.fld (.var "service") fLabels),
+  .rangeMap "k" "val" (.var "l") [.mapStore (.var "fresh") (·.pstr "k") (.var "val")],
+  .assign "service" (.withFld (.var "service") fLabels (.var "fresh"))]
+
 def labelsResolvedBody (np : String) : List Stmt := [
-  .assign "svcs" (.fld (.var np) fServices),
-  .rangeMap "i" "service" (.var "svcs") [
-    .assign "old" (.fld (.var "service") fLabels),
-    .ite (fun st => !(mapKeys (v st "old")).isEmpty)
-      [.allocMap "labels",
-       .rangeMap "k" "val" (.var "old") [.mapStore (.var "labels") (·.pstr "k") (.var "val")],
-       .assign "service" (.withFld (.var "service") fLabels (.var "labels"))] [],
+  .rangeMap "i" "service" (.fld (.var np) fServices) [
+    .allocMap "labels",
+    .opaque "service.LabelFiles",
+    .block "labels = labels.OverrideBy(service.Labels.ToMappingWithEquals())" overrideLabels,
+    .ite (fun st => (mapKeys (v st "labels")).isEmpty)
+      [.assign "labels" .nilv]
+      [.block "service.Labels = NewLabelsFromMappingWithEquals(labels)" newLabels],
     .ite (fun st => st.plist "discard" == ["1"])
       [.assign "service" (.withFld (.var "service") fLabelFiles .nilv)] [],
     .mapStore (.fld (.var np) fServices) (·.pstr "i") (.var "service")]]
 
-def labelsResolved : List Stmt := .deepCopy "np" (.var "p") :: labelsResolvedBody "np"
+def labelsResolved : List Stmt :=
+  .deepCopy "newProject" (.var "p") :: labelsResolvedBody "newProject" ++ [.assign "result" (.var "newProject")]
 
 /-- `WithServicesEnabled(names...)` -/
 def withServicesEnabled : List Stmt := [
-  .deepCopy "np" (.var "p"),
-  .ite (fun st => (st.plist "names").isEmpty) [.assign "result" (.var "np")] ([
+  .deepCopy "newProject" (.var "p"),
+  .ite (fun st => (st.plist "names").isEmpty) [.assign "result" (.var "newProject")] [
     -- profiles := append([]string{}, p.Profiles...); for the names not enabled: append(profiles, p.DisabledServices[name].Profiles...)
     .pset "profiles" (fun st =>
       let p := v st "p"
       let base := (sliceStrs (getFld fProfiles p)).map decStr
       some ((st.plist "names").foldl (fun acc n =>
-        if hasIdx n (getFld fServices (v st "np")) then acc
+        if hasIdx n (getFld fServices (v st "newProject")) then acc
         else acc ++ (sliceStrs (getFld fProfiles (getIdx n (getFld fDisabled p)))).map decStr) base)),
-    .deepCopy "np2" (.var "np")] ++ withProfilesBody "np2" ++ [
-    .deepCopy "np3" (.var "np2"),
-    .pset "discard" (fun _ => some ["1"])] ++ envResolvedBody "np3" ++ [
-    .assign "result" (.var "np3")])]
+    .block "newProject, err := newProject.WithProfiles(profiles)"
+      (.deepCopy "np2" (.var "newProject") :: withProfilesBody "np2" ++ [.assign "newProject" (.var "np2")]),
+    .ite (fun _ => false) [.assign "result" (.var "newProject")] [
+      .block "return newProject.WithServicesEnvironmentResolved(true)"
+        ([.deepCopy "np3" (.var "newProject"), .pset "discard" (fun _ => some ["1"])] ++ envResolvedBody "np3" ++
+         [.assign "result" (.var "np3")])]]]
 
-/-- the body of `np.WithServicesDisabled(names)` for names in the pure variable `dnames` -/
+/-- the body of `WithServicesDisabled(names...)` after the copy `np`, for the names in the pure variable `dnames` -/
 def disabledBody (np : String) : List Stmt := [
   .ite (fun st => isNil (getFld fDisabled (v st np)))
-    [.allocMap "dm", .setPtrFld (.var np) fDisabled (.var "dm")] [],
+    [.allocMap "tmpDisabledServices", .setPtrFld (.var np) fDisabled (.var "tmpDisabledServices")] [],
   .rangePure "name" (fun st => getP "dnames" st.pvars) [
-    .assign "svcs" (.fld (.var np) fServices),
-    .rangeMap "i" "s" (.var "svcs") [
+    .rangeMap "i" "s" (.fld (.var np) fServices) [
       .ite (fun st => hasIdx (st.pstr "name") (getFld fDependsOn (v st "s")))
         [.mapDelete (.fld (.var "s") fDependsOn) (·.pstr "name"),
          .mapStore (.fld (.var np) fServices) (·.pstr "i") (.var "s")] []],
     .ite (fun st => hasIdx (st.pstr "name") (getFld fServices (v st np)))
-      [.mapStore (.fld (.var np) fDisabled) (·.pstr "name") (.idx (.fld (.var np) fServices) (·.pstr "name")),
+      [.assign "service" (.idx (.fld (.var np) fServices) (·.pstr "name")),
+       .mapStore (.fld (.var np) fDisabled) (·.pstr "name") (.var "service"),
        .mapDelete (.fld (.var np) fServices) (·.pstr "name")] []]]
 
 def withServicesDisabled : List Stmt := [
-  .deepCopy "np" (.var "p"),
+  .deepCopy "newProject" (.var "p"),
   .pset "dnames" (fun st => getP "names" st.pvars),
-  .ite (fun st => (st.plist "names").isEmpty) [] (disabledBody "np"),
-  .assign "result" (.var "np")]
+  .ite (fun st => (st.plist "names").isEmpty) [.assign "result" (.var "newProject")]
+    (disabledBody "newProject" ++ [.assign "result" (.var "newProject")])]
 
-/-- `WithSelectedServices(names, options...)` -/
+/-- insertion sort of names (Go: `sort.Strings`) -/
+def sortStrs (l : List String) : List String :=
+  l.foldl (fun acc x => (acc.takeWhile (· < x)) ++ [x] ++ (acc.dropWhile (· < x))) []
+
+/-- `WithSelectedServices(names, options...)` (after C15's repair: the unselected services are disabled by one call, in name order) -/
 def withSelectedServices : List Stmt := [
-  .deepCopy "np" (.var "p"),
-  .ite (fun st => (st.plist "names").isEmpty) [.assign "result" (.var "np")] [
+  .deepCopy "newProject" (.var "p"),
+  .ite (fun st => (st.plist "names").isEmpty) [.assign "result" (.var "newProject")] [
     -- p.ForEachService(names, set.Add, options...)
     .pset "set" (fun st => selected (v st "p") (st.plist "names") (st.pstr "policy")),
     .fail (fun st => (getP "set" st.pvars).isNone) "no such service",
     .allocMap "enabled",
-    .assign "svcs" (.fld (.var "np") fServices),
-    .rangeMap "name" "s" (.var "svcs") [
+    .pset "unselected" (fun st =>
+      some (sortStrs ((mapKeys (getFld fServices (v st "newProject"))).filter fun n => !(st.plist "set").contains n))),
+    .rangeMap "name" "s" (.fld (.var "newProject") fServices) [
       .ite (fun st => (st.plist "set").contains (st.pstr "name"))
         [.assign "dependencies" (.fld (.var "s") fDependsOn),
-         .rangeMap "d" "dv" (.var "dependencies") [
+         .rangeMap "d" "_" (.var "dependencies") [
            .ite (fun st => !(st.plist "set").contains (st.pstr "d")) [.mapDelete (.var "dependencies") (·.pstr "d")] []],
          .assign "s" (.withFld (.var "s") fDependsOn (.var "dependencies")),
          .mapStore (.var "enabled") (·.pstr "name") (.var "s")]
-        -- newProject = newProject.WithServicesDisabled(name)
-        ([.deepCopy "np2" (.var "np"),
-          .pset "dnames" (fun st => some [st.pstr "name"])] ++ disabledBody "np2" ++
-         [.assign "np" (.var "np2")])],
-    .setPtrFld (.var "np") fServices (.var "enabled"),
-    .assign "result" (.var "np")]]
+        []],
+    .block "newProject = newProject.WithServicesDisabled(unselected...)"
+      ([.deepCopy "np2" (.var "newProject"), .pset "dnames" (fun st => getP "unselected" st.pvars),
+        .ite (fun st => (st.plist "dnames").isEmpty) [] (disabledBody "np2"),
+        .assign "newProject" (.var "np2")]),
+    .setPtrFld (.var "newProject") fServices (.var "enabled"),
+    .assign "result" (.var "newProject")]]
 
-/-- `WithoutUnnecessaryResources()` (after the repair: the kept values come from the copy) -/
-def keep (np : String) (kind : String) (f : Nat) : List Stmt := [
-  .allocMap "kept",
+/-- one resource kind of `WithoutUnnecessaryResources()` (after the round-1 repair: the kept values come from the copy) -/
+def keep (np : String) (x : String) (kind : String) (f : Nat) : List Stmt := [
+  .allocMap x,
   .rangePure "k" (fun st => some (required (v st np) kind)) [
     .ite (fun st => hasIdx (st.pstr "k") (getFld f (v st np)))
-      [.mapStore (.var "kept") (·.pstr "k") (.idx (.fld (.var np) f) (·.pstr "k"))] []],
-  .setPtrFld (.var np) f (.var "kept")]
+      [.assign "value" (.idx (.fld (.var np) f) (·.pstr "k")),
+       .mapStore (.var x) (·.pstr "k") (.var "value")] []],
+  .setPtrFld (.var np) f (.var x)]
 
 def withoutUnnecessaryResources : List Stmt :=
-  [.deepCopy "np" (.var "p")] ++ keep "np" "networks" fNetworks ++ keep "np" "volumes" fVolumes ++
-  keep "np" "secrets" fSecrets ++ keep "np" "configs" fConfigs ++ [.assign "result" (.var "np")]
+  [.deepCopy "newProject" (.var "p")] ++ keep "newProject" "networks" "networks" fNetworks ++
+  keep "newProject" "volumes" "volumes" fVolumes ++ keep "newProject" "secrets" "secrets" fSecrets ++
+  keep "newProject" "configs" "configs" fConfigs ++ [.assign "result" (.var "newProject")]
 
 /-- the defect repaired in round 1, kept as a program: the kept values are read from the receiver -/
 def keepFromReceiver (np : String) (kind : String) (f : Nat) : List Stmt := [
@@ -250,36 +284,83 @@ def keepFromReceiver (np : String) (kind : String) (f : Nat) : List Stmt := [
 def withoutUnnecessaryResourcesOld : List Stmt :=
   [.deepCopy "np" (.var "p")] ++ keepFromReceiver "np" "networks" fNetworks ++ [.assign "result" (.var "np")]
 
-/-- `WithServicesTransform(fn)`: the result assembly, for the transforms the harness uses
-(`identity`; `label` = `s.Labels = s.Labels.Add(key, name)`; `image` = replace `Image` from the pure table `images`;
-a transform that fails for the names in `errnames` makes the method return the untouched copy and the error) -/
+/-- `WithServicesTransform(fn)`: the result assembly (sequentialised: C19 models the fan-out), for the transforms the
+harness uses (`identity`; `label` = `s.Labels = s.Labels.Add(key, name)`; `image` = replace `Image` from the pure table
+`images`; a transform that fails for the names in `errnames` makes the method return the untouched copy and the error) -/
 def withServicesTransform : List Stmt := [
-  .deepCopy "np" (.var "p"),
-  .assign "services" (.fld (.var "np") fServices),
+  .deepCopy "newProject" (.var "p"),
+  .assign "services" (.fld (.var "newProject") fServices),
   .ite (fun st => (mapKeys (v st "services")).any fun n => (st.plist "errnames").contains n)
-    [.assign "result" (.var "np"), .fail (fun _ => true) "transform failed"] [],
-  .allocMap "collected",
+    [.assign "result" (.var "newProject"), .fail (fun _ => true) "transform failed"] [],
+  .allocMap "s",
   .rangeMap "name" "service" (.var "services") [
-    .ite (fun st => st.pstr "variant" == "label")
-      [.ite (fun st => isNil (getFld fLabels (v st "service")))
-        [.allocMap "lm", .assign "service" (.withFld (.var "service") fLabels (.var "lm"))] [],
-       .mapStore (.fld (.var "service") fLabels) (fun _ => "c14.transformed") (.str fun st => encStr (st.pstr "name"))] [],
-    .ite (fun st => st.pstr "variant" == "image" && (lookupPair (st.pstr "name") (st.plist "images")).isSome)
-      [.assign "service" (.withFld (.var "service") fImage (.str fun st => encStr ((lookupPair (st.pstr "name") (st.plist "images")).getD "")))] [],
-    .mapStore (.var "collected") (·.pstr "name") (.var "service")],
-  .setPtrFld (.var "np") fServices (.var "collected"),
-  .assign "result" (.var "np")]
+    .block "updated, err := fn(name, service)" [
+      .ite (fun st => st.pstr "variant" == "label")
+        [.ite (fun st => isNil (getFld fLabels (v st "service")))
+          [.allocMap "lm", .assign "service" (.withFld (.var "service") fLabels (.var "lm"))] [],
+         .mapStore (.fld (.var "service") fLabels) (fun _ => "c14.transformed") (.str fun st => encStr (st.pstr "name"))] [],
+      .ite (fun st => st.pstr "variant" == "image" && (lookupPair (st.pstr "name") (st.plist "images")).isSome)
+        [.assign "service" (.withFld (.var "service") fImage (.str fun st => encStr ((lookupPair (st.pstr "name") (st.plist "images")).getD "")))] [],
+      .assign "updated" (.var "service")],
+    .mapStore (.var "s") (·.pstr "name") (.var "updated")],
+  .setPtrFld (.var "newProject") fServices (.var "s"),
+  .assign "result" (.var "newProject")]
 
 /-- the nine derivations (WithImagesResolved = WithServicesTransform with the `image` transform) -/
 def programs : List (String × List Stmt) := [
-  ("WithProfiles", withProfiles ++ [.assign "result" (.var "np")]),
+  ("WithProfiles", withProfiles),
   ("WithServicesEnabled", withServicesEnabled),
   ("WithServicesDisabled", withServicesDisabled),
   ("WithSelectedServices", withSelectedServices),
   ("WithoutUnnecessaryResources", withoutUnnecessaryResources),
   ("WithServicesTransform", withServicesTransform),
   ("WithImagesResolved", withServicesTransform),
-  ("WithServicesEnvironmentResolved", envResolved ++ [.assign "result" (.var "np")]),
-  ("WithServicesLabelsResolved", labelsResolved ++ [.assign "result" (.var "np")])]
+  ("WithServicesEnvironmentResolved", envResolved),
+  ("WithServicesLabelsResolved", labelsResolved)]
+
+/-! ## the statement skeleton of a program, as text (what `translator/c14prog.go` prints from the Go source) -/
+
+def fname (f : Nat) : String := CV.Gen.CopyPlan.fieldNames.getD f "?"
+
+def renderE : Expr → String
+  | .var x => x
+  | .fld e f => renderE e ++ "." ++ fname f
+  | .idx e _ => renderE e ++ "[_]"
+  | .str _ => "<pure>"
+  | .nilv => "nil"
+  | .withFld e f w => "with(" ++ renderE e ++ "." ++ fname f ++ "=" ++ renderE w ++ ")"
+
+mutual
+def renderS : Stmt → String
+  | .assign x e => x ++ "=" ++ renderE e ++ ";"
+  | .pset _ _ => ""
+  | .allocMap x => x ++ "=make;"
+  | .allocSlice x _ => x ++ "=slice;"
+  | .allocPtr x e => x ++ "=&" ++ renderE e ++ ";"
+  | .deepCopy x e => x ++ "=copy(" ++ renderE e ++ ");"
+  | .setPtrFld tgt f e => renderE tgt ++ "." ++ fname f ++ ":=" ++ renderE e ++ ";"
+  | .mapStore m _ e => renderE m ++ "[_]:=" ++ renderE e ++ ";"
+  | .mapDelete m _ => "delete(" ++ renderE m ++ ");"
+  | .rangeMap kx vx m body => "for " ++ kx ++ "," ++ vx ++ " in " ++ renderE m ++ "{" ++ renderL body ++ "}"
+  | .rangePure kx _ body => "for " ++ kx ++ " in pure{" ++ renderL body ++ "}"
+  | .ite _ a b => "if{" ++ renderL a ++ "}else{" ++ renderL b ++ "}"
+  | .fail _ _ => "fail;"
+  | .block tag _ => "call(" ++ tag ++ ");"
+  | .opaque tag => "opaque(" ++ tag ++ ");"
+def renderL : List Stmt → String
+  | [] => ""
+  | s :: r => renderS s ++ renderL r
+end
+
+/-- the functions whose statement skeleton is regenerated from the source and compared -/
+def skeletons : List (String × String) := [
+  ("AllServices", renderL (allServices "p" ++ [.assign "result" (.var "all")])),
+  ("WithProfiles", renderL withProfiles),
+  ("WithServicesEnabled", renderL withServicesEnabled),
+  ("WithServicesDisabled", renderL withServicesDisabled),
+  ("WithSelectedServices", renderL withSelectedServices),
+  ("WithoutUnnecessaryResources", renderL withoutUnnecessaryResources),
+  ("WithServicesEnvironmentResolved", renderL envResolved),
+  ("WithServicesLabelsResolved", renderL labelsResolved)]
 
 end CV.Heap.Deriv
